@@ -147,3 +147,35 @@ SINGLETON_TABLE = [
     ["^", ["E"], ["E"]], ["^", ["E"], ["W"]], ["^", ["W"], ["E"]], ["^", ["W"], ["W"]],
     ["~", ["E"]], ["~", ["W"]], ["neg", ["E"]], ["neg", ["W"]],
 ]
+
+
+def nested_exprs():
+    """Rings nested through islands (a hole inside an island inside a hole ...)."""
+    n1, n2, n3, n4, n5 = (L("N.N%d#int" % i) for i in range(1, 6))
+    ring12 = ["-", n1, n2]
+    ring34 = ["-", n3, n4]
+    base = [
+        ["|", ring12, ring34],
+        ["|", ring34, ring12],
+        ["-", n1, ["-", n2, n3]],
+        ["-", n1, ["-", n2, ring34]],
+        ["|", ["|", ring12, ring34], n5],
+        ["-", ["-", n1, ["-", n2, n3]], n4],
+        ["^", n1, ["^", n2, ["^", n3, n4]]],
+        ["&", ring12, ["~", ring34]],
+        ["|", ["~", n1], ring34],
+        ["~", ["|", ring12, ring34]],
+        ["~", ["~", ["|", ring12, ring34]]],
+        ["-", n2, ["|", ring34, n5]],
+    ]
+    return base
+
+
+def nested_laws():
+    n1, n2, n3, n4, n5 = (L("N.N%d#int" % i) for i in range(1, 6))
+    deep = ["|", ["-", n1, n2], ["-", n3, n4]]
+    deeper = ["-", n1, ["-", n2, ["-", n3, n4]]]
+    out = []
+    for s in (deep, deeper):
+        out += law_exprs(s)
+    return out
